@@ -6,8 +6,8 @@ CONSTANTS
   AlphaSet <- Alphas3
   AggSet <- Aggs5
   MaxEsts = 3
-  MaxAlphas = 2
-  MaxAggs = 3
+  MaxAlphas = 3
+  MaxAggs = 5
   Export = TRUE
   LoopOrder = "estimand_outer"
   CacheSlots = "per_alpha"
